@@ -97,8 +97,12 @@ def execute_argv(case):
     def unsafe_ref(tokens):
         for tok in tokens:
             for p_ in tok["pieces"]:
-                if p_[0] == 'ref' and not all(
-                        ch in SAFE for ch in str(values[p_[1].lower()])):
+                if p_[0] != 'ref':
+                    continue
+                val = str(values[p_[1].lower()])
+                # (an empty value is split-sensitive too: in a string form
+                # the word it stood for may vanish)
+                if val == '' or not all(ch in SAFE for ch in val):
                     return True
         return False
 
@@ -368,7 +372,7 @@ def _argv_strategy():
                                   'tab\tsep'])
         env = draw(st.dictionaries(
             st.sampled_from(['VA', 'VB', 'PATHX', 'X1']),
-            st.one_of(safe, safe, unsafe), max_size=3))
+            st.one_of(safe, safe, unsafe, st.just('')), max_size=3))
         socks = draw(st.dictionaries(st.sampled_from(['web', 'api']),
                                      st.integers(3, 99), max_size=2))
         refnames = ['wid', 'working_dir'] + \
